@@ -24,7 +24,7 @@ Fixpoint cleanup (s : list N) : list N :=
     else c :: cleanup r
   end.
 
-(* what a valid repetition quantifier looks like: `{digits}` or `{digits,digits}` *)
+(* what a valid repetition quantifier looks like: `{digits}`, `{digits,digits}` or `{digits,}` (at least so many) *)
 Fixpoint take_digits (s : list N) : list N * list N :=
   match s with
   | c :: r => if is_09 c then let (d, rest) := take_digits r in (c :: d, rest) else ([], s)
@@ -40,14 +40,14 @@ Definition quantifier_body (s : list N) : option (list N * list N) :=
     | 125 :: rest => Some (d1, rest)
     | 44 :: r2 =>
       let (d2, r3) := take_digits r2 in
-      match d2, r3 with
-      | _ :: _, 125 :: rest => Some (d1 ++ [44] ++ d2, rest)
-      | _, _ => None
+      match r3 with
+      | 125 :: rest => Some (d1 ++ [44] ++ d2, rest)
+      | _ => None
       end
     | _ => None
     end
   end.
-(* pass B: every `{digits}` or `{digits,digits}` (leftmost, not overlapping; also right after a backslash) stays as it is; a
+(* pass B: every `{digits}`, `{digits,digits}` or `{digits,}` (leftmost, not overlapping; also right after a backslash) stays as it is; a
    backslash protects the next character; every other curly bracket gets a backslash *)
 Definition is_quantifier_start (s : list N) : bool :=
   match s with c :: r => (c =? 123) && (match quantifier_body r with Some _ => true | None => false end) | [] => false end.
